@@ -43,6 +43,49 @@ var flagWorkload = flag.String("workload", "", "which workload to run (c05 c06 c
 // wall clock in an oracle and is generous on purpose.
 const hangTimeout = 20 * time.Second
 
+// expired waits out hangTimeout (measured from start); on a machine whose
+// one-minute load average exceeds its CPU count — where a runnable goroutine may
+// simply not have been given a processor — it grants up to a minute more.
+// It reports true once the (extended) time is over; callers poll it.
+func expired(start time.Time) bool {
+	el := time.Since(start)
+	if el < hangTimeout {
+		return false
+	}
+	if el < hangTimeout+60*time.Second && overloaded() {
+		return false
+	}
+	return true
+}
+
+func overloaded() bool {
+	b, err := os.ReadFile("/proc/loadavg")
+	if err != nil {
+		return false
+	}
+	var l1 float64
+	fmt.Sscanf(string(b), "%f", &l1)
+	return l1 > float64(runtime.NumCPU())
+}
+
+// waitOr waits for ch; false = the hang timeout (extended under overload) passed first.
+func waitOr[T any](ch <-chan T) (T, bool) {
+	start := time.Now()
+	tick := time.NewTicker(250 * time.Millisecond)
+	defer tick.Stop()
+	for {
+		select {
+		case v := <-ch:
+			return v, true
+		case <-tick.C:
+			if expired(start) {
+				var z T
+				return z, false
+			}
+		}
+	}
+}
+
 type workload struct {
 	name     string
 	property string
@@ -139,12 +182,8 @@ func (g *group) Go(name string, fn func()) {
 func (g *group) Wait() bool {
 	done := make(chan struct{})
 	go func() { g.wg.Wait(); close(done) }()
-	select {
-	case <-done:
-		return true
-	case <-time.After(hangTimeout):
-		return false
-	}
+	_, ok := waitOr(done)
+	return ok
 }
 
 // flush turns what the group collected into findings.
@@ -165,12 +204,8 @@ func returns(fn func()) (ok bool, panicked any) {
 		defer func() { done <- recover() }()
 		fn()
 	}()
-	select {
-	case p := <-done:
-		return true, p
-	case <-time.After(hangTimeout):
-		return false, nil
-	}
+	p, ok := waitOr(done)
+	return ok, p
 }
 
 // eventually polls cond (yielding in between) until it holds or hangTimeout
@@ -222,12 +257,12 @@ func nudger() (watch func(*clocktesting.FakeClock), stop func()) {
 }
 
 func eventually(cond func() bool, step func()) bool {
-	deadline := time.Now().Add(hangTimeout)
+	start := time.Now()
 	for i := 0; ; i++ {
 		if cond() {
 			return true
 		}
-		if time.Now().After(deadline) {
+		if i%256 == 255 && expired(start) {
 			return false
 		}
 		if step != nil {
